@@ -390,8 +390,8 @@ def tasks(tier, seed):
             for B in fixed + others:
                 for parser in ("timestamp", "relative", "format") + (("absolute",) if j < 2 and B in (None, "UTC") else ()):
                     aw = AWARE[(j + len(parser) + seed) % 3]
-                    add("dst:%s:%s>%s:%s" % (parser, A, B, aw), "h_dst", {"parser": parser, "A": A, "B": B, "aware": aw, "y0": y0, "y1": y1}, 400)
-            add("dst:timestamp:UTC>%s" % A, "h_dst", {"parser": "timestamp", "A": "UTC", "B": A, "aware": True, "y0": y0, "y1": y1}, 300)
+                    add("dst:%s:%s>%s:%s" % (parser, A, B, aw), "h_dst", {"parser": parser, "A": A, "B": B, "aware": aw, "y0": y0, "y1": y1}, 150)
+            add("dst:timestamp:UTC>%s" % A, "h_dst", {"parser": "timestamp", "A": "UTC", "B": A, "aware": True, "y0": y0, "y1": y1}, 120)
     # zones that call themselves by an abbreviation the library lists with another offset (target given as abbreviation)
     hom = homonyms(y0, y1) if not quick else homonyms(2021, 2021)
     if quick and hom:
@@ -399,7 +399,7 @@ def tasks(tier, seed):
     for j, (zn, ab, off) in enumerate(hom):
         for parser in (("format", "timestamp") if not quick else (("format", "timestamp")[(seed + j) % 2],)):
             add("dst-homonym:%s:%s>%s" % (parser, zn, ab), "h_dst", {"parser": parser, "A": zn, "B": ab, "aware": AWARE[(j + seed) % 3],
-                                                                     "y0": y0, "y1": y1, "b_off": off}, 200)
+                                                                     "y0": y0, "y1": y1, "b_off": off}, 100 if not quick else 200)
     # the process-local zone (TZ environment) has transitions: TIMEZONE='local' (also the default) must mean that zone
     if DZ:
         locs = [DZ[(seed + 2) % len(DZ)]] if quick else DZ
@@ -410,7 +410,7 @@ def tasks(tier, seed):
                 combos = [combos[(seed + j) % 7], combos[(seed + j + 3) % 7], combos[(seed + j + 5) % 7]]
             for parser, B, aw in combos:
                 add("dst-local:%s:%s>%s:%s" % (parser, L, B, aw), "h_dst", {"parser": parser, "A": "local", "B": B, "aware": aw,
-                                                                            "y0": y0, "y1": y1, "local": L}, 200)
+                                                                            "y0": y0, "y1": y1, "local": L}, 100 if not quick else 200)
     for j in range(1 if quick else 6):
         A, B = pairs[(seed + 5 * j) % len(pairs)]
         add("absolute-full:%s>%s" % (A, B), "h_absolute", {"A": A, "B": B, "aware": AWARE[j % 3], "full": True}, 400)
